@@ -120,6 +120,8 @@ pub enum Focus {
     Keygen,
     Serialise,
     Derive,
+    /// every kind (coverage-guided target): the key is prefixed with the property the kind belongs to
+    All,
 }
 
 impl Focus {
@@ -167,6 +169,15 @@ pub fn check(focus: Focus, c: &Case, st: &mut Stats) -> CheckResult {
         let mismatch = |kind: Focus, key: &str, what: String| -> CheckResult {
             if kind == focus {
                 Err(Fail::new(format!("history:{key}:set{}", p.id), format!("set {} call #{i}: {what} [{before}]", p.id)))
+            } else if focus == Focus::All {
+                let prop = match kind {
+                    Focus::Verify => "C02",
+                    Focus::Keygen => "C04",
+                    Focus::Serialise => "C09",
+                    Focus::Derive => "C11",
+                    _ => "C03",
+                };
+                Err(Fail::new(format!("{prop}|history:{key}:set{}", p.id), format!("set {} call #{i}: {what} [{before}]", p.id)))
             } else {
                 Ok(())
             }
